@@ -74,6 +74,8 @@ func ToGo(v plan.Value) interface{} {
 			m[k], _ = tengo.FromInterface(ToGo(e))
 		}
 		return &tengo.ImmutableMap{Value: m}
+	case "obj:stringer":
+		return &hostStringer{n: v.I}
 	case "obj:objarray": // []tengo.Object
 		arr := make([]tengo.Object, len(v.A))
 		for i, e := range v.A {
